@@ -19,8 +19,9 @@
        block at once;
      * IF evaluates its condition once and runs exactly one branch;
      * WHILE / FOR evaluate the condition before every pass and run the body while it holds; Brk ends the loop, Cont ends
-       the pass (FOR still runs its increment), Ret ends the loop and stays raised; neither Brk nor Cont ever leaves the
-       loop statement; the pass number N + 1 is still run, then the loop is cut off with a logged error and execution
+       the pass (FOR still runs its increment), Ret ends the loop and stays raised; the increment of a FOR is part of the
+       loop (a Brk raised there ends the FOR, a Cont only ends the increment); neither Brk nor Cont raised by the body
+       or by the increment ever leaves the loop statement; the pass number N + 1 is still run, then the loop is cut off with a logged error and execution
        continues after the loop (a Ret raised in that pass stays raised);
      * a call opens a FRESH frame, evaluates the arguments, binds the parameters positionally (an argument that is
        missing or has no value takes the declared default), runs the body, and yields what `Result` is bound to in that
@@ -277,9 +278,11 @@ Section Sem.
                 | Ret => Fin (Ret, snd r)
                 | Normal | Cont =>
                     rbind (block inc (snd r)) (fun r2 =>
+                      (* the increment is part of the loop: its Brk ends THIS loop, its Cont only ends the increment *)
                       match fst r2 with
-                      | Normal => for_sem left' cnd inc body line (snd r2)
-                      | sg => Fin (sg, snd r2)          (* a signal raised by the increment ends the loop and stays raised *)
+                      | Brk => Fin (Normal, snd r2)
+                      | Ret => Fin (Ret, snd r2)
+                      | Normal | Cont => for_sem left' cnd inc body line (snd r2)
                       end)
                 end
             end)).
